@@ -1,11 +1,13 @@
 import CallbagModel.Inv.XViols
 import CallbagModel.Inv.Combine
+import CallbagModel.Inv.ComposeFull
 import CallbagModel.Inv.ComposeInst
 import CallbagModel.Inv.ConcatFull
 import CallbagModel.Inv.FlattenFull
 import CallbagModel.Inv.ForEachFull
 import CallbagModel.Inv.FromIterFull
 import CallbagModel.Inv.MergeFull
+import CallbagModel.Inv.MonSound
 import CallbagModel.Inv.RelayFull
 import CallbagModel.Inv.ShareFull
 import CallbagModel.Inv.ShareWeak
@@ -73,18 +75,40 @@ theorem C04_share_protocol {α : Type} :
     ∀ s, SReach (Share.machine α) s → ∀ v ∈ s.g.ph.viols, (∃ k, v = Viol.afterTerm k) ∨ (∃ k, v = Viol.afterDispose k) :=
   fun s hs => (ShareWeak.share_safe_weak s hs).1
 
-/-- pipelines `pipe!(source, op₁, …, opₙ)` of map / filter / scan / skip / take of ANY length (assume–guarantee, Inv/ComposeSafe.lean):
-the protocol part of C04 — no upstream subscribed twice or after the output is over, no Pull / Terminate / Error to an upstream that is
-not live — and, for closed pipelines ending in `for_each`, the same with `for_each` as the last stage. (The memory part of C04 — error
-relay, orphans at top level — is proved per operator above, not yet for pipelines: `_partial`.) -/
-theorem C04_pipeline_protocol_partial {S1 L1 S2 L2 α β γ : Type} {M1 : Machine S1 L1 α β} {M2 : Machine S2 L2 β γ}
-    (P1 : Pipeable M1) (P2 : Pipeable M2) : ∀ s, SReach (compose M1 M2) s → s.g.ph.viols = [] :=
-  fun s hs => ((P1.compose P2).safe s hs).1
+/-- pipelines `pipe!(source, op₁, …, opₙ)` of map / filter / scan / skip / take of ANY length, as operators against every conformant
+upstream and sink — C04 in FULL (both monitor layers).  `FullStage` (Inv/ComposeFull.lean): pipeable, one upstream and one sink, no
+orphan at top level, and DIRECT error paths (an `Error` arriving at either end is passed on by the handler that receives it, with
+nothing in between); closed under `compose`.  A general "Safe M₁ → Safe M₂ → Safe (compose M₁ M₂)" is FALSE (two executions at the
+end of Inv/ComposeFull.lean: a stage that delivers one more datum before relaying an upstream Error, over a `take` that completes on
+it; a stage that pulls before relaying its sink's Error, under a `take` that completes on the answer). -/
+theorem C04_pipeline {S1 L1 S2 L2 α β γ : Type} {M1 : Machine S1 L1 α β} {M2 : Machine S2 L2 β γ}
+    (h1 : ComposeFull.FullStage M1) (h2 : ComposeFull.FullStage M2) : ∀ s, SReach (compose M1 M2) s → SafeFor 4 s :=
+  fun s hs => (ComposeFull.compose_safe h1 h2 s hs).1.safeFor 4
 
-theorem C04_closed_pipeline_protocol_partial {S1 L1 S2 L2 α β γ : Type} {Msrc : Machine S1 L1 α β} {Mmid : Machine S2 L2 β γ}
+/-- the stages (and every composition of stages: `FullStage.compose`) -/
+theorem C04_full_stages {σ α β : Type} (k : Relay.Kind σ α β) (hk : k.slotted = false → ∀ s a, (k.xfer s a).2 ≠ none) (max : Nat) :
+    ComposeFull.FullStage (Relay.machine k) ∧ ComposeFull.FullStage (Take.machine α max) :=
+  ⟨ComposeFull.Relay.fullStage k hk, ComposeFull.Take.fullStage max⟩
+
+/-- closed pipelines `pipe!(head, stages…, for_each(f))`, head = from_iter / concat! / flatten: C04 in full -/
+theorem C04_closed_pipeline {S1 L1 S2 L2 α β γ : Type} {Msrc : Machine S1 L1 α β} {Mmid : Machine S2 L2 β γ}
     (hsrc : UpSide Msrc) (hmid : Pipeable Mmid) :
-    ∀ s, SReach (compose (compose Msrc Mmid) (ForEach.machine γ)) s → s.g.ph.viols = [] :=
-  fun s hs => (closed_pipeline_safe hsrc hmid s hs).1
+    ∀ s, SReach (compose (compose Msrc Mmid) (ForEach.machine γ)) s → SafeFor 4 s :=
+  fun s hs => (ComposeFull.closed_pipeline_full hsrc hmid s hs).1.safeFor 4
+
+/-- `pipe!(from_iter(it), stages…)` as a source, against every conformant sink: C04 in full -/
+theorem C04_fromIter_pipeline {ι α α' β S L : Type} (next : ι → Option (α × ι)) (it0 : ι) {Mmid : Machine S L α β}
+    (hmid : Pipeable Mmid) : ∀ s, SReach (compose (FromIter.machine α' next it0) Mmid) s → SafeFor 4 s :=
+  fun s hs => (ComposeFull.fromIter_pipeline_full next it0 hmid s hs).1.safeFor 4
+
+/-- the oracle that judges traces recorded from the real crate IS the monitor of these theorems: on every model execution the
+machine-free monitor `monRun` (Mon.lean), folded over the boundary trace alone, computes exactly the ghost carried by the configuration
+(`Inv/MonSound.lean`: `monRun_sound`), so `SafeFor 4` can be read off the trace -/
+theorem C04_oracle_is_the_monitor {St Loc α β : Type} (M : Machine St Loc α β) :
+    ∀ s, SReach M s →
+      (SafeFor 4 s ↔ (∀ v ∈ (monRun M.shape s.tr.reverse).g.viols, v.prop ≠ 4) ∧
+        (4 = 17 → (monRun M.shape s.tr.reverse).panicked = false)) :=
+  safeFor_iff_monRun M 4
 
 /-- `combine!`: the full statement is FALSE (known findings KF2, KF3: the sink's Pull / Terminate / Error are also sent to members that
 have ended, and a Pull broadcast continues after a nested disposal; witnesses in `Thm/Counterexamples.lean`). What is proved: those
